@@ -212,9 +212,30 @@ PROPS = {
         "thorough": [leg("main", "rel", 16, 62500, timeout=3600, max_secs=1700), leg("dbg", "dbg", 8, 5000, timeout=3600, max_secs=900)],
         "min": {"operations_checked": 500000, "lookups_checked": 5000000},
     },
+    "C14": {
+        "level": "exploration",
+        "rule": ("exhaustive: 256 type bytes x 256 hit-sound bytes of a circle-shaped line in three contexts (first object / after a spinner / after a circle); "
+                 "histories of 40 generated lines fed into one long-lived parser state: a field-wise generator over all four kinds, every extras shape, path strings "
+                 "over letters B,L,P,C,Bn,B0,Bx,X,b,P2 with duplicate/collinear/origin points, 1-5 segments, malformed points, boundary numerics (131072/131073, "
+                 "9000/9001, 2^31), the hostile grammar generator, and well-formed slider lines. Oracle: accept/reject and every projected field (position, kind, combo, "
+                 "control points+types, length, repeats, node samples, samples) equal to an independent reference parser, compared on the object pushed before map-level "
+                 "defaults. One evaluation = one line; distinct by FNV-64 of the line"),
+        "assumptions": COMMON_ASSUMPTIONS + ["the reference parser is hand-written from the legacy grammar as the statement summarises it"],
+        "quick": [leg("main", "rel", 16, 400, timeout=600, max_secs=150), leg("dbg", "dbg", 8, 100, timeout=600, max_secs=150),
+                  leg("miri", "miri", 8, 4, timeout=900, max_secs=240, pregen=True)],
+        "thorough": [leg("main", "rel", 16, 9000, timeout=3600, max_secs=1700), leg("dbg", "dbg", 16, 1500, timeout=3600, max_secs=1500),
+                     leg("miri", "miri", 16, 25, timeout=5400, max_secs=2400, pregen=True)],
+        "min": {"accepted_circle": 20000, "accepted_slider": 20000, "accepted_spinner": 10000, "accepted_hold": 5000, "rejected_lines": 20000,
+                "multi_segment_sliders": 5000, "exhaustive_type_sound_context_cases": 196608},
+    },
 }
 
 MANIFEST_TEXT = {
+    "C14": {
+        "technique": "runtime monitoring: lock-step reference parser on the public per-line API with a long-lived state (buffer reuse across lines); exhaustive type x sound bytes; slider lines under Miri",
+        "level_text": "Every generated line is parsed by the real parser and by an independent reference in the same context; accept/reject and all projected fields must agree. All 65536 type/sound byte pairs are enumerated in three contexts.",
+        "level_note": "Exhaustive over type x sound bytes for circles (exhaustive: true), sampled over the line grammar otherwise.",
+    },
     "C12": {
         "technique": "runtime monitoring: reference-model oracle (legacy pending-group model with linear scans) + independent structural invariants over exhaustively enumerated short line sequences and random long ones",
         "level_text": "Short sequences over a small alphabet with many equal times are enumerated completely in all modes; long random sequences are sampled; every decoded list must equal the model and satisfy order/clamp invariants.",
